@@ -201,13 +201,25 @@ def lake(args, timeout=3000):
     return p.returncode, p.stdout.decode(errors="replace")
 
 
+def props_modules(prop):
+    """Props/Cxx.lean plus extension files Props/Cxx_<Part>.lean (same namespace Mutagen.Cxx)"""
+    import glob
+    d = os.path.join(LEAN, "MutagenModel", "Props")
+    mods = []
+    if os.path.exists(os.path.join(d, prop + ".lean")):
+        mods.append(prop)
+    mods += sorted(os.path.basename(p)[:-5] for p in glob.glob(os.path.join(d, prop + "_*.lean")))
+    return mods
+
+
 def props_theorems(prop):
-    path = os.path.join(LEAN, "MutagenModel", "Props", prop + ".lean")
-    if not os.path.exists(path):
-        return []
-    src = strip_lean_comments(open(path).read())
-    ns = "Mutagen." + prop
-    return [ns + "." + m for m in re.findall(r"^theorem\s+([A-Za-z_][A-Za-z0-9_'.]*)", src, re.M)]
+    out = []
+    for mod in props_modules(prop):
+        path = os.path.join(LEAN, "MutagenModel", "Props", mod + ".lean")
+        src = strip_lean_comments(open(path).read())
+        ns = "Mutagen." + prop
+        out += [ns + "." + m for m in re.findall(r"^theorem\s+([A-Za-z_][A-Za-z0-9_'.]*)", src, re.M)]
+    return out
 
 
 def failing_modules(log):
@@ -233,7 +245,7 @@ def prepare(prop, need_driver=True, tier="quick"):
                     if m:
                         st.ok = False
                         st.problems.append(("forbidden", "%s contains %r" % (fn, m.group(0).strip())))
-        rc, log = lake(["build", "MutagenModel.Props." + prop])
+        rc, log = lake(["build"] + ["MutagenModel.Props." + m for m in (props_modules(prop) or [prop])])
         if rc != 0:
             st.ok = False
             mods, errs = failing_modules(log)
@@ -252,7 +264,8 @@ def prepare(prop, need_driver=True, tier="quick"):
         if rc == 0 and st.theorems:
             apath = os.path.join(LEAN, ".lake", "audit_%s.lean" % prop)
             with open(apath, "w") as f:
-                f.write("import MutagenModel.Props.%s\n" % prop)
+                for m in props_modules(prop):
+                    f.write("import MutagenModel.Props.%s\n" % m)
                 for t in st.theorems:
                     f.write("#print axioms %s\n" % t)
             rc3, out = lake(["env", "lean", apath])
@@ -273,7 +286,7 @@ def prepare(prop, need_driver=True, tier="quick"):
         # thorough tier: the compiled Props module and everything it imports re-checked by the independent checker
         st.leanchecker = None
         if tier == "thorough" and rc == 0:
-            rc4, out4 = lake(["env", "leanchecker", "MutagenModel.Props." + prop])
+            rc4, out4 = lake(["env", "leanchecker"] + ["MutagenModel.Props." + m for m in props_modules(prop)])
             st.leanchecker = (rc4 == 0)
             if rc4 != 0:
                 st.ok = False
